@@ -42,6 +42,25 @@ def cutAt (c : Char) (l : List Char) : Option (List Char × List Char) :=
   let k := l.takeWhile (· ≠ c)
   if k.length < l.length then some (k, l.drop (k.length + 1)) else none
 
+/-- Go indexing `l[i]`: `none` = "index out of range" run-time panic -/
+def goIndex {α : Type} (l : List α) (i : Nat) : Option α := l[i]?
+
+/-- Go slicing `s[lo:hi]`: `none` = "slice bounds out of range" run-time panic -/
+def goSliceC (s : List Char) (lo hi : Nat) : Option (List Char) :=
+  if lo ≤ hi ∧ hi ≤ s.length then some ((s.take hi).drop lo) else none
+
+/-- Go slicing with `int` bounds (as computed by expressions such as `len(s)-1`, which may be negative) -/
+def goSliceI (s : List Char) (lo hi : Int) : Option (List Char) :=
+  if 0 ≤ lo ∧ lo ≤ hi ∧ hi ≤ (s.length : Int) then some ((s.take hi.toNat).drop lo.toNat) else none
+
+/-- `strings.SplitN(s, string(c), n)` for n ≥ 1 -/
+def splitN (c : Char) : Nat → List Char → List (List Char)
+  | 0, l => [l]
+  | 1, l => [l]
+  | n + 2, l => match cutAt c l with
+    | none => [l]
+    | some (a, r) => a :: splitN c (n + 1) r
+
 def hasPrefix (p s : List Char) : Bool := s.take p.length = p
 
 def hasSuffix (p s : List Char) : Bool := s.drop (s.length - p.length) = p
